@@ -66,6 +66,25 @@ type Cfg struct {
 	// Nafin: what the driver does after a per-recipient body refused for every recipient:
 	// "commit" (as Session.LMTPData and the queue) or "abort"
 	Nafin string `json:"nafin"`
+	// Dupof[i] = 0: the i-th RCPT command names a new address; j > 0: it repeats the address of the j-th
+	Dupof []int `json:"dupof"`
+	// Dmvia: how the DMARC policy that prescribes Dmarc is published (dims_test.go)
+	Dmvia string `json:"dmvia"`
+	// Early: checks (of the global block) that have the connection-time hook; Everd: those that refuse the
+	// connection; Eon: the driver calls RunEarlyChecks before Start
+	Early []string `json:"early"`
+	Everd []string `json:"everd"`
+	Eon   bool     `json:"eon"`
+}
+
+// rcptAt returns the recipient id and address of the i-th (0-based) RCPT command.
+func (c Cfg) rcptAt(i int) (id, addr string) {
+	j := i
+	if i < len(c.Dupof) && c.Dupof[i] > 0 {
+		j = c.Dupof[i] - 1
+	}
+	id = fmt.Sprintf("r%d", j+1)
+	return id, id + "@" + blockDomain[c.Route[j]]
 }
 
 type Call struct {
@@ -79,7 +98,14 @@ type Behaviour struct {
 	ID    int    `json:"id"`
 	Cfg   Cfg    `json:"cfg"`
 	Calls []Call `json:"calls"`
+	// Again: when the message is over the same script is run once more on the SAME pipeline object
+	// (a second connection / message); it is recorded as trace ID + AgainOffset.  Messages are
+	// independent of each other in CheckRunner.tla, so the second trace is validated like any other:
+	// a harness-only dimension (what one message leaves behind in the pipeline object).
+	Again bool `json:"again"`
 }
+
+const AgainOffset = 4000000
 
 const sender = "s@example.org"
 
@@ -127,6 +153,9 @@ func checkBody(c Cfg, key, name, firstRcpt string) string {
 	if has(c.Only1, name) {
 		fmt.Fprintf(&sb, "rcpt_only %s\n", firstRcpt)
 	}
+	if has(c.Early, name) && has(c.Everd, name) {
+		sb.WriteString("early_reject yes\n")
+	}
 	return sb.String()
 }
 
@@ -146,13 +175,17 @@ func configText(c Cfg, key string) (top, pipe string) {
 	ref := map[string]string{} // check name -> directive text used inside a block
 	for _, n := range names {
 		sc := c.Place[n]
+		mod := "verif_scripted"
+		if has(c.Early, n) {
+			mod = "verif_scripted_early" // the same check with the module.EarlyCheck hook
+		}
 		switch {
 		case len(sc) == 0:
 			continue
 		case len(sc) == 1:
-			ref[n] = "check {\nverif_scripted {\n" + checkBody(c, key, n, firstRcpt) + "}\n}\n"
+			ref[n] = "check {\n" + mod + " {\n" + checkBody(c, key, n, firstRcpt) + "}\n}\n"
 		default:
-			fmt.Fprintf(&tb, "checks %s_%s {\nverif_scripted {\n%s}\n}\n", key, n, checkBody(c, key, n, firstRcpt))
+			fmt.Fprintf(&tb, "checks %s_%s {\n%s {\n%s}\n}\n", key, n, mod, checkBody(c, key, n, firstRcpt))
 			ref[n] = fmt.Sprintf("check &%s_%s\n", key, n)
 		}
 	}
@@ -173,7 +206,7 @@ func configText(c Cfg, key string) (top, pipe string) {
 	}
 	var pb strings.Builder
 	pb.WriteString(in("G"))
-	if c.Dmarc == "quar" {
+	if c.Dmarc != "off" && c.Dmarc != "" {
 		// DMARC needs DKIM and SPF results to evaluate: an extra (unscripted) check supplies failing ones
 		pb.WriteString("check {\nverif_authres\n}\ndmarc yes\n")
 	}
@@ -242,6 +275,7 @@ func registerInstances(text string) error {
 type fakeDNS struct {
 	mu     sync.Mutex
 	parked []chan struct{}
+	zone   map[string]string // lower-case "_dmarc.<domain>" -> TXT record; absent = no such name
 }
 
 func (f *fakeDNS) release() bool {
@@ -271,7 +305,8 @@ func (f *fakeDNS) LookupIPAddr(ctx context.Context, host string) ([]net.IPAddr, 
 	return nil, notFound(host)
 }
 func (f *fakeDNS) LookupTXT(ctx context.Context, name string) ([]string, error) {
-	if strings.EqualFold(strings.TrimSuffix(name, "."), "_dmarc.example.org") {
+	key := strings.ToLower(strings.TrimSuffix(name, "."))
+	if strings.HasPrefix(key, "_dmarc.") {
 		gate := make(chan struct{})
 		f.mu.Lock()
 		f.parked = append(f.parked, gate)
@@ -280,14 +315,12 @@ func (f *fakeDNS) LookupTXT(ctx context.Context, name string) ([]string, error) 
 		if err := ctx.Err(); err != nil {
 			return nil, err
 		}
-		return []string{"v=DMARC1; p=quarantine"}, nil
+		if rec, ok := f.zone[key]; ok {
+			return []string{rec}, nil
+		}
 	}
 	return nil, notFound(name)
 }
-
-type collector struct{ st map[string]error }
-
-func (c *collector) SetStatus(rcpt string, err error) { c.st[rcptID(rcpt)] = err }
 
 func errInfo(err error) (res string, code int) {
 	if err == nil {
@@ -386,8 +419,22 @@ func cfgEvent(c Cfg) vtrace.Ev {
 	if mod != "on" {
 		mod = "off"
 	}
+	dupof := make([]int, len(c.Route))
+	copy(dupof, c.Dupof)
+	dmvia := c.Dmvia
+	if dmvia == "" {
+		dmvia = "-"
+	}
+	early, everd := c.Early, c.Everd
+	if early == nil {
+		early = []string{}
+	}
+	if everd == nil {
+		everd = []string{}
+	}
 	return vtrace.Ev{"place": c.Place, "verd": c.Verd, "only1": only, "route": c.Route,
-		"path": c.Path, "dmarc": c.Dmarc, "kind": c.Kind, "mod": mod, "mfail": mfail, "nafin": nafin}
+		"path": c.Path, "dmarc": c.Dmarc, "kind": c.Kind, "mod": mod, "mfail": mfail, "nafin": nafin,
+		"dupof": dupof, "dmvia": dmvia, "early": early, "everd": everd, "eon": c.Eon}
 }
 
 func runPipeline(t *testing.T, b Behaviour, w *bufio.Writer) {
@@ -424,99 +471,116 @@ func runPipeline(t *testing.T, b Behaviour, w *bufio.Writer) {
 		p.Hostname = "mx.example.org"
 		p.Log = log.Logger{Out: log.NopOutput{}}
 		dns := &fakeDNS{}
+		fromDomain := orgDomain
+		if b.Cfg.Dmarc != "off" && b.Cfg.Dmarc != "" {
+			fromDomain, dns.zone = dmarcScenario(b.Cfg.Dmarc, b.Cfg.Dmvia)
+		}
 		p.Resolver = dns
 
-		tr.Emit("Cfg", cfgEvent(b.Cfg))
-		d := &driver{t: t, tr: tr, ctl: ctl, dns: dns}
-		for _, c := range b.Calls {
-			if c.A == "call" {
-				d.hints = append(d.hints, c)
+		message := func(tr *vtrace.Tracer, msgID string) {
+			tr.Emit("Cfg", cfgEvent(b.Cfg))
+			d := &driver{t: t, tr: tr, ctl: ctl, dns: dns}
+			for _, c := range b.Calls {
+				if c.A == "call" {
+					d.hints = append(d.hints, c)
+				}
 			}
-		}
-		ctx := context.Background()
-		meta := &module.MsgMetadata{ID: fmt.Sprintf("verif%d", b.ID), OriginalFrom: sender, SMTPOpts: smtp.MailOptions{}}
+			ctx := context.Background()
+			meta := &module.MsgMetadata{ID: msgID, OriginalFrom: sender, SMTPOpts: smtp.MailOptions{}}
 
-		var dl module.Delivery
-		from := sender
-		if b.Cfg.From == "null" {
-			from = ""
-		}
-		meta.OriginalFrom = from
-		d.cmd("start", "", func() { dl, err = p.Start(ctx, meta, from) })
-		if !d.ret("start", "", err) {
-			tr.Emit("End", nil)
-			return
-		}
-		accepted := 0
-		var acceptedIDs []string
-		for i, blk := range b.Cfg.Route {
-			r := fmt.Sprintf("r%d", i+1)
-			addr := r + "@" + blockDomain[blk]
-			var e error
-			d.cmd("rcpt", r, func() { e = dl.AddRcpt(ctx, addr, smtp.RcptOptions{}) })
-			if d.ret("rcpt", r, e) {
-				accepted++
-				acceptedIDs = append(acceptedIDs, r)
-			}
-		}
-		fin := "commit"
-		if accepted == 0 {
-			fin = "abort"
-		} else {
-			hdr := textproto.Header{}
-			hdr.Add("Subject", "verif")
-			hdr.Add("From", "<"+sender+">")
-			body := buffer.MemoryBuffer{Slice: []byte("hello\r\n")}
-			if b.Cfg.Path == "na" {
-				col := &collector{st: map[string]error{}}
-				d.cmd("body", "", func() { dl.(module.PartialDelivery).BodyNonAtomic(ctx, col, hdr, body) })
-				st := map[string]string{}
-				res, code := "err", 0
-				for _, r := range acceptedIDs { // a target without BodyNonAtomic reports failures only
-					if _, ok := col.st[r]; !ok {
-						st[r] = "ok"
-						res = "ok"
-					}
-				}
-				for r, e := range col.st {
-					s, c := errInfo(e)
-					st[r] = s
-					if e == nil {
-						res = "ok"
-					} else {
-						code = c
-					}
-				}
-				tr.Emit("Ret", vtrace.Ev{"op": "body", "r": "", "res": res, "code": code, "st": st})
-				if res != "ok" && b.Cfg.Nafin == "abort" {
-					fin = "abort"
-				}
-			} else {
+			if b.Cfg.Eon {
+				// the connection-time entry: what the endpoint calls for a new connection, before any message
 				var e error
-				d.cmd("body", "", func() { e = dl.Body(ctx, hdr, body) })
-				if !d.ret("body", "", e) {
-					fin = "abort"
+				d.cmd("early", "", func() {
+					e = p.RunEarlyChecks(ctx, &module.ConnState{Proto: "ESMTP", Hostname: "client.example",
+						RemoteAddr: &net.TCPAddr{IP: net.IPv4(192, 0, 2, 1), Port: 1025}})
+				})
+				if !d.ret("early", "", e) {
+					tr.Emit("End", nil) // connection refused: no message
+					return
 				}
 			}
-		}
-		var e error
-		if fin == "commit" {
-			d.cmd("commit", "", func() { e = dl.Commit(ctx) })
-		} else {
-			d.cmd("abort", "", func() { e = dl.Abort(ctx) })
-		}
-		d.ret(fin, "", e)
-		if rw != nil && rw.relayed != nil {
-			// the committed queue delivers on its own goroutine (fake clock of the bubble)
-			for i := 0; i < 3 && !rw.relayed(); i++ {
+
+			var dl module.Delivery
+			from := sender
+			if b.Cfg.From == "null" {
+				from = ""
+			}
+			meta.OriginalFrom = from
+			d.cmd("start", "", func() { dl, err = p.Start(ctx, meta, from) })
+			if !d.ret("start", "", err) {
+				tr.Emit("End", nil)
+				return
+			}
+			accepted := 0
+			var acceptedAddrs []string // one entry per accepted RCPT command
+			for i := range b.Cfg.Route {
+				r, addr := b.Cfg.rcptAt(i)
+				var e error
+				d.cmd("rcpt", r, func() { e = dl.AddRcpt(ctx, addr, smtp.RcptOptions{}) })
+				if d.ret("rcpt", r, e) {
+					accepted++
+					acceptedAddrs = append(acceptedAddrs, addr)
+				}
+			}
+			fin := "commit"
+			if accepted == 0 {
+				fin = "abort"
+			} else {
+				hdr := textproto.Header{}
+				hdr.Add("Subject", "verif")
+				hdr.Add("From", "<s@"+fromDomain+">")
+				body := buffer.MemoryBuffer{Slice: []byte("hello\r\n")}
+				if b.Cfg.Path == "na" {
+					// one reply slot per accepted RCPT command, as in go-smtp's LMTP collector; a slot nobody
+					// fills ends up with the answer of the final Commit (a target without BodyNonAtomic reports
+					// failures only; the LMTP endpoint always commits, and the pipeline's Commit succeeds)
+					col := newSlotCollector(acceptedAddrs)
+					d.cmd("body", "", func() { dl.(module.PartialDelivery).BodyNonAtomic(ctx, col, hdr, body) })
+					st, anyOK, code, empty := col.result(nil)
+					res := "err"
+					if anyOK {
+						res = "ok"
+					}
+					tr.Emit("Ret", vtrace.Ev{"op": "body", "r": "", "res": res, "code": code, "st": st,
+						"emptySlots": empty, "slotErrors": col.bad})
+					if res != "ok" && b.Cfg.Nafin == "abort" {
+						fin = "abort"
+					}
+				} else {
+					var e error
+					d.cmd("body", "", func() { e = dl.Body(ctx, hdr, body) })
+					if !d.ret("body", "", e) {
+						fin = "abort"
+					}
+				}
+			}
+			var e error
+			if fin == "commit" {
+				d.cmd("commit", "", func() { e = dl.Commit(ctx) })
+			} else {
+				d.cmd("abort", "", func() { e = dl.Abort(ctx) })
+			}
+			d.ret(fin, "", e)
+			if rw != nil && rw.relayed != nil {
+				// the committed queue delivers on its own goroutine (fake clock of the bubble)
+				for i := 0; i < 3 && !rw.relayed(); i++ {
+					synctest.Wait()
+					if !rw.relayed() {
+						time.Sleep(time.Second)
+					}
+				}
 				synctest.Wait()
-				if !rw.relayed() {
-					time.Sleep(time.Second)
-				}
 			}
-			synctest.Wait()
+			tr.Emit("End", nil)
 		}
-		tr.Emit("End", nil)
+		message(tr, fmt.Sprintf("verif%d", b.ID))
+		if b.Again && b.Cfg.Kind == "pipe" {
+			synctest.Wait()
+			tr2 := vtrace.New(w, b.ID+AgainOffset)
+			ctl.Tr = tr2 // checks, targets and modifiers of this pipeline log through the controller
+			message(tr2, fmt.Sprintf("verif%dagain", b.ID))
+		}
 	})
 }
 
